@@ -444,7 +444,7 @@ def replay_sim_process_begin(m):
     world.until = cs.time + 1
     world.rt_factor = None
     world.tqdm = tqdm(disable=True)
-    sim = SimRunner("S-0", P("event-based"), depth=len(cs))
+    sim = SimRunner("S-0", P(case.get("type", "event-based")), depth=len(cs))
     sim.tqdm = tqdm(disable=True)
     world.sims["S-0"] = sim
     sim.next_steps = [cs]
@@ -457,7 +457,7 @@ def replay_sim_process_begin(m):
     finally:
         world.loop.close()
     must_stop = any(t >= bound for t in cs.tiers[1:])
-    desc = f"sim_process with settled step {cs!r}, max_loop_iterations={bound}: "
+    desc = f"sim_process of a {case.get('type', 'event-based')} simulator with settled step {cs!r}, max_loop_iterations={bound}: "
     if must_stop:
         ok = err is not None and "S-0" in str(err) and not stepped
         return ok, desc + (f"SimulationError naming the simulator: {'S-0' in str(err)}" if err else
